@@ -3,6 +3,8 @@
 //! mirsym and natively for replay.
 #![allow(dead_code, unused_imports, clippy::all)]
 
+#[cfg(kani)]
+pub mod kani_h;
 pub mod sym;
 pub mod spec;
 pub mod c01;
